@@ -1,11 +1,14 @@
 (* C02 - The parser builds the tree the VCL grammar and precedence table dictate.
    Only the property theorems (closed by [exact]) and their Print Assumptions; the model is
-   Model/Parse*.v, the proofs are in Proofs/Parse*.v. *)
+   Model/Parse*.v (parser/*.go over the significant token stream), the proofs are in
+   Proofs/Parse*.v.  [fok] is the strconv.ParseFloat accept/reject oracle: every theorem holds
+   for every such oracle. *)
 From Coq Require Import List NArith ZArith.
 From Falco Require Import Base.Bytes Gen.TokenTypes Model.ParseKinds Gen.ParserTables
-  Model.ParseBase Model.Ast Model.ParseLit Model.ParseExpr Model.ParseStmt Model.ParseDecl
-  Proofs.ParseTables.
+  Model.ParseBase Model.Ast Model.ParseLit Model.ParseExpr Model.ParseStmt Model.ParseDecl Model.Yield
+  Proofs.ParseTables Proofs.ParseExprYield Proofs.ParseExprTotal Proofs.ParsePratt Proofs.ParseRoundtrip.
 Import ListNotations.
+Local Open Scope N_scope.
 
 (* T tie: the precedence table, the prefix / infix / postfix registrations (with the explicit
    flag of the concatenation closures), the assignment operators and the declaration keywords
@@ -21,4 +24,48 @@ Theorem C02_tables_are_documented :
   /\ P_LOWEST = D_LOWEST /\ P_PREFIX = D_PREFIX /\ P_POSTFIX = D_POSTFIX /\ P_CALL = D_CALL.
 Proof. exact tables_are_documented. Qed.
 
+(* Once, in source order, exactly as written: a successful ParseExpression consumed exactly the
+   tokens of the tree it returns (every identifier, operator and literal token is in the tree),
+   at least one, and left the rest untouched (on return cur is the last token of the tree). *)
+Theorem C02_parse_expr_yield :
+  forall fok prec st e st',
+    parse_expr fok prec st = POK (e, st') -> toks st = yexpr e ++ after st' /\ yexpr e <> [].
+Proof. exact parse_expr_yield. Qed.
+
+(* Operators group as the documented table states, parentheses overriding: for EVERY canonical
+   tree (any depth; all infix operators, explicit + and juxtaposition, prefix operators, grouping,
+   if(), calls, postfix %), any caller precedence p below the tree's loosest operator and any
+   continuation that cannot extend the expression, parsing the tokens of the tree returns the tree. *)
+Theorem C02_pratt_roundtrip :
+  forall fok e p pv rest,
+    canon fok e -> p < minprec e -> follow_ok e rest = true -> stops p rest = true ->
+    parse_expr fok p (St pv (yexpr e ++ rest)) = POK (e, endst pv (yexpr e) rest).
+Proof. exact parse_expr_roundtrip. Qed.
+
+Theorem C02_parse_expression_roundtrip :
+  forall fok e, canon fok e -> 1 < minprec e ->
+    parse_expression fok (yexpr e) = POK (e, [last (yexpr e) eof_tok]).
+Proof. exact parse_expression_roundtrip. Qed.
+
+(* ... hence the grouping is a function of the tokens *)
+Theorem C02_canonical_tree_unique :
+  forall fok e1 e2, canon fok e1 -> canon fok e2 -> 1 < minprec e1 -> 1 < minprec e2 ->
+    yexpr e1 = yexpr e2 -> e1 = e2.
+Proof. exact canonical_tree_unique. Qed.
+
+(* exported to C01: the expression parser never runs out of its fuel (2 * tokens + 4), and never
+   reaches a Go fault point on a token stream shaped as the lexer shapes it *)
+Theorem C02_parse_expr_total : forall fok prec st, parse_expr fok prec st <> PFuel.
+Proof. exact parse_expr_total. Qed.
+
+Theorem C02_parse_expr_no_crash :
+  forall fok prec st, long_ok (toks st) = true -> parse_expr fok prec st <> PCrash.
+Proof. exact parse_expr_no_crash. Qed.
+
 Print Assumptions C02_tables_are_documented.
+Print Assumptions C02_parse_expr_yield.
+Print Assumptions C02_pratt_roundtrip.
+Print Assumptions C02_parse_expression_roundtrip.
+Print Assumptions C02_canonical_tree_unique.
+Print Assumptions C02_parse_expr_total.
+Print Assumptions C02_parse_expr_no_crash.
